@@ -32,8 +32,9 @@ Scenario per explored path: session A (faults armed) -> state check -> [thorough
 with the faults still armed, so that a later fault can hit the session that follows a damaged one -> state check] ->
 faults disarmed -> session B, a plain immediate write session in the same thread ("a following session") -> state
 check -> (SQLite) session C in a different thread -> db.disconnect() -> final accounting.
-Quick tier: two fault positions for exception class 0, one for classes 1 and 2.  Thorough tier: three fault
-positions, all classes, A2 armed.
+Quick tier: two fault positions for exception class 0, one for classes 1 and 2 (~1500-1900 paths per harness).
+Thorough tier: A2 armed, two positions for every exception class, a third position for class 0 with mid <= 3
+(~7000-17000 paths per harness).
 
 Reference statement of the property (functions `_state_ok`, `_scenario_body`):
   R1 the provider's transaction lock and pre-transaction lock are free; no acquire ever found the lock held
